@@ -408,11 +408,13 @@ def oracle_c18(case):
             via_pipe = piped.transform(ct.build_circuit(dump))
             if not (via_pipe == whole):
                 return f'pipe operator over {ts} differs from applying the list'
-    for heavy in ((False, True) if len(dump['inputs']) <= 5 else (False,)):
+    # light, heavy, and light AGAIN: every call stands alone, whatever was called before in the same process
+    for nth, heavy in enumerate((False, True, False) if len(dump['inputs']) <= 5 else (False,)):
         cl = cleanup(ct.build_circuit(dump), use_heavy=heavy)
         seq = ct.build_circuit(dump)
         for leaf in [['RR', False], ['MU'], ['MD']] + ([['ME']] if heavy else []):
             seq = build(leaf).transform(seq)
         if not (cl == seq):
-            return f'cleanup(use_heavy={heavy}) differs from its passes applied one after another'
+            return (f'cleanup(use_heavy={heavy}) differs from its passes applied one after another'
+                    + (' (the call after a heavy cleanup in the same process)' if nth == 2 else ''))
     return None
